@@ -138,7 +138,8 @@ def tlc(module_path, cfg_path=None, workers=None, env=None, timeout=3600, simula
     shutil.rmtree(meta, ignore_errors=True)
     os.makedirs(meta, exist_ok=True)
     libs = [SPEC, os.path.join(SPEC, "mc"), os.path.join(SPEC, "trace"), GEN] + (lib or [])
-    java = ["java", "-XX:+UseParallelGC", "-Xmx" + xmx]
+    # TLC / the CommunityModules leave a directory per run in java.io.tmpdir: keep it inside the run's metadir (removed afterwards)
+    java = ["java", "-XX:+UseParallelGC", "-Xmx" + xmx, "-Djava.io.tmpdir=" + meta]
     if xss:
         java.append("-Xss" + xss)
     if deque:
